@@ -56,6 +56,13 @@ fn main() {
             let r = ar.product_with_optional(*h, v);
             let got = arena_fam(&ar, r);
             let want = pwo(f, v);
+            if on("C07") {
+                // order / canonicity after an extension: the result must be THE node of its family
+                if got.iter().any(|st| st.len() != st.iter().collect::<BTreeSet<_>>().len()) { println!("WITNESS op=arena.product_with_optional/order var={} a={:?} yields a set with a repeated variable: {:?}", v, f, got); std::process::exit(1); }
+                let hw = arena_build(&mut ar, &want);
+                if got == want && hw != r { println!("WITNESS op=arena.product_with_optional/canonicity var={} a={:?}: result root {:?} but the same family built from sets has root {:?}", v, f, r, hw); std::process::exit(1); }
+                if got != want { println!("WITNESS op=arena.product_with_optional var={} a={:?} real_result={:?} expected={:?} (variable order / sharing broken)", v, f, got, want); std::process::exit(1); }
+            }
             if (on("C03") || on("C06")) && got != want { println!("WITNESS op=arena.product_with_optional var={} a={:?} real_result={:?} expected={:?}", v, f, got, want); std::process::exit(1); }
             checked += 1;
         }
@@ -99,10 +106,17 @@ fn main() {
         let mut live: Vec<ZddHandle> = hs.iter().step_by(3).copied().collect();
         let nl = live.len();
         live.push(hs[0]); live.push(hs[hs.len() - 1]); live.push(hs[3 % hs.len()]);
+        // terminal handles kept alive across gc: the empty family (index 0) and the base family {{}} (index 1)
+        let term_at = live.len();
+        live.push(hs[0]); live.push(hs[1]);
         let (_st, new) = ar.gc(&live);
         for (k, h) in new.iter().take(nl).enumerate() {
             let got = arena_fam(&ar, *h);
             if got != fams[k * 3] { report("arena.gc", &fams[k * 3], None, &got, &fams[k * 3]); }
+        }
+        for (k, fi) in [(term_at, 0usize), (term_at + 1, 1usize)] {
+            let got = arena_fam(&ar, new[k]);
+            if got != fams[fi] { report("arena.gc (terminal handle kept alive)", &fams[fi], None, &got, &fams[fi]); }
         }
         for i in 0..nl { for j in 0..nl {
             if (fams[i * 3] == fams[j * 3]) != (new[i] == new[j]) { println!("WITNESS op=arena.gc/canonicity a={:?} b={:?} roots after gc {:?} {:?}", fams[i * 3], fams[j * 3], new[i], new[j]); std::process::exit(1); }
